@@ -717,6 +717,9 @@ func unescapeBackTickSpecialStr(l *syntax.Lexer, srcLiteral []rune) []rune {
 		case syntax.RuneEOF:
 			// never consume beyond the end of source
 			goto UNDONE_end
+		case syntax.RuneCR, syntax.RuneLF:
+			// leave line breaks to parseString(), which records the new line
+			goto UNDONE_end
 		case LeftDoubleQuoteI, LeftDoubleQuoteII, LeftSingleQuoteI, LeftSingleQuoteII, LeftLibQuoteI,
 			RightDoubleQuoteI, RightDoubleQuoteII, RightSingleQuoteI, RightSingleQuoteII, RightLibQuoteI:
 			qch := l.Peek()
